@@ -136,3 +136,223 @@ def meta_parsers(cx):
         if f.name.startswith('build_from_') and f.name.endswith('_meta') and len(f.module.path) >= 3 and f.module.path[0] == 'trait_handlers' and f.module.path[2] == 'models':
             out.append(MetaParser(cx, f))
     return out
+
+
+# ------------------------------------------------------------------------------------------
+# parameter parsers
+# ------------------------------------------------------------------------------------------
+
+def _under(ev, entry_id, idx=None, pol=None):
+    for c in ev.ctx:
+        if c.get('id') == entry_id and not c.get('prior'):
+            if idx is not None and c.get('idx') != idx:
+                continue
+            if pol is not None and c.get('pol') != pol:
+                continue
+            return True
+    return False
+
+
+def ret_value_kind(ev):
+    """'ok_true' | 'ok_false' | ('err', ctor) | other text for a `return X` exit"""
+    v = ev.value
+    if v is None:
+        return 'unit'
+    if v['k'] == 'Call' and v['func']['k'] == 'Path':
+        p = v['func']['path']['s']
+        if p == 'Ok' and v['args'] and v['args'][0]['k'] == 'Lit' and v['args'][0]['lit']['k'] == 'Bool':
+            return 'ok_true' if v['args'][0]['lit']['v'] else 'ok_false'
+        if p == 'Err' and v['args']:
+            a = v['args'][0]
+            if a['k'] == 'Call' and a['func']['k'] == 'Path':
+                return ('err', a['func']['path']['s'])
+            return ('err', es(a)[:40])
+    return es(v)[:60]
+
+
+class ParamModel:
+    def __init__(self, names, entry_id, idx, pol, line):
+        self.names = names
+        self.entry_id = entry_id
+        self.idx = idx
+        self.pol = pol
+        self.line = line
+        self.enable = None          # name of the enable_* field tested first, or None
+        self.enable_ok = False
+        self.conv = None            # (callee path, arg text)
+        self.conv_ev = None
+        self.reset_flag = None
+        self.reset_ok = False
+        self.flag_set = None
+        self.sets = []              # (target name, value expr json, event)
+        self.returns_true = False
+        self.other_exits = []
+        self.order_ok = True
+
+
+class MetaParserModel:
+    def __init__(self, cx, mp):
+        self.cx = cx
+        self.mp = mp
+        self.fn = mp.fn
+        self.fw = mp.fw
+        self.tm = mp.tm
+        self.problems = []
+        self.top = None
+        self.arms = {}       # 'Path'|'NameValue'|'List' -> (arm ctx entry idx, events)
+        self.params = []
+        self.closure = None
+        self.tail_loop_ok = False
+        self.default_false = False
+        self.analyse()
+
+    def analyse(self):
+        fw, tm = self.fw, self.tm
+        # top-level match on the meta
+        for ev in fw.events:
+            if ev.kind == 'match':
+                pats = [pat_s(a['pat']) for a in ev.node['arms']]
+                if any('Meta::Path' in p for p in pats) and any('Meta::List' in p for p in pats):
+                    st = tm.term(ev.node['expr'], ev.scope)
+                    if st == ('param', 'meta') or (isinstance(st, tuple) and st[0] == 'elem'):
+                        self.top = ev
+                        break
+        if self.top is None:
+            self.problems.append('no `match meta { Meta::Path / NameValue / List }`')
+            return
+        mid = self.top.id
+        for idx, a in enumerate(self.top.node['arms']):
+            ps = pat_s(a['pat'])
+            kinds = [k for k in ('Path', 'NameValue', 'List') if ('Meta::' + k + '(') in ps or ps == 'Meta::' + k]
+            evs = [e for e in fw.events if _under(e, mid, idx=idx)]
+            for k in kinds:
+                self.arms[k] = (idx, evs, a)
+        # the handler closure inside the List arm
+        if 'List' in self.arms:
+            idx, evs, a = self.arms['List']
+            clos = [e for e in evs if e.kind == 'closure']
+            if clos:
+                self.closure = clos[0]
+                cid = self.closure.entry['id']
+                cevs = [e for e in fw.events if any(c.get('id') == cid for c in e.ctx)]
+                self.analyse_closure(cevs, cid)
+                # after the closure: for p in result { if !handler(p)? { return Err(attribute_incorrect_format..) } }
+                for e in evs:
+                    if e.kind == 'exit' and e.how == 'return' and not any(c.get('id') == cid for c in e.ctx):
+                        rk = ret_value_kind(e)
+                        if isinstance(rk, tuple) and rk[1].endswith('attribute_incorrect_format'):
+                            loops = [c for c in e.ctx if c['k'] == 'for']
+                            conds = [c for c in e.ctx if c['k'] == 'if' and c['pol'] and 'handler(' in es(c['cond']) and es(c['cond']).startswith('!')]
+                            if loops and conds:
+                                info = analyse_iter(loops[-1]['iter'])
+                                if not info.adaptors and not info.rev:
+                                    self.tail_loop_ok = True
+
+    def analyse_closure(self, cevs, cid):
+        fw, tm = self.fw, self.tm
+        # parameter selection: match on ident string, or `if ident == "name"`
+        sel = None
+        for e in cevs:
+            if e.kind == 'match':
+                pats = [a['pat'] for a in e.node['arms']]
+                if any(pat_lits(p) for p in pats):
+                    sel = ('match', e)
+                    break
+        if sel is None:
+            for e in cevs:
+                if e.kind == 'branch' and e.pos['k'] == 'if':
+                    c = e.node['cond']
+                    if c['k'] == 'Binary' and c['op'] == '==' and c['r_']['k'] == 'Lit' and c['r_']['lit']['k'] == 'Str':
+                        sel = ('if', e)
+                        break
+        if sel is None:
+            self.problems.append('no parameter selection found in the handler closure')
+            return
+        groups = []
+        if sel[0] == 'match':
+            e = sel[1]
+            for idx, a in enumerate(e.node['arms']):
+                lits = pat_lits(a['pat'])
+                if lits:
+                    groups.append(ParamModel(lits, e.id, idx, None, a['l']))
+                elif a['pat']['k'] != 'Wild':
+                    self.problems.append('unexpected parameter arm pattern `%s`' % pat_s(a['pat']))
+            # wildcard arm must do nothing
+            for idx, a in enumerate(e.node['arms']):
+                if a['pat']['k'] == 'Wild':
+                    inner = [x for x in cevs if _under(x, e.id, idx=idx) and x.kind in ('exit', 'assign', 'mcall')]
+                    if inner:
+                        self.problems.append('the fallback arm for unknown parameters is not empty')
+        else:
+            e = sel[1]
+            c = e.node['cond']
+            groups.append(ParamModel([c['r_']['lit']['v']], e.pos['id'], None, True, e.line))
+        for g in groups:
+            evs = [x for x in cevs if _under(x, g.entry_id, idx=g.idx, pol=g.pol)]
+            self.fill_param(g, evs)
+            self.params.append(g)
+        # closure result when no arm matched: Ok(false)
+        tail = [x for x in cevs if x.kind == 'closureval' or (x.kind == 'tail' and any(c.get('id') == cid for c in x.ctx[-1:]))]
+        body = self.closure.node['body']
+        if body['k'] == 'Block' and body['stmts']:
+            last = body['stmts'][-1]
+            if last['k'] == 'Expr' and not last['semi'] and es(last['expr']).replace(' ', '') == 'Ok(false)':
+                self.default_false = True
+
+    def fill_param(self, g, evs):
+        seq = []
+        for e in evs:
+            if e.kind == 'exit' and e.how == 'return':
+                rk = ret_value_kind(e)
+                conds = [c for c in e.ctx if c['k'] == 'if' and c['pol'] and not c.get('prior') and c.get('id') != g.entry_id]
+                inner = [c for c in conds if _is_after(c, g, e)]
+                if rk == 'ok_false' and inner:
+                    ce = es(inner[-1]['cond']).replace(' ', '')
+                    if ce.startswith('!self.enable_'):
+                        g.enable = ce[len('!self.'):]
+                        seq.append(('enable', e.seq))
+                        continue
+                if isinstance(rk, tuple) and rk[1].endswith('parameter_reset') and inner:
+                    g.reset_flag = es(inner[-1]['cond']).replace(' ', '')
+                    seq.append(('reset', e.seq))
+                    continue
+                if rk == 'ok_true' and not inner:
+                    g.returns_true = True
+                    seq.append(('ret', e.seq))
+                    continue
+                g.other_exits.append((rk, [es(c['cond']) for c in inner], e))
+            elif e.kind == 'let' and e.init is not None and e.init['k'] == 'Try':
+                x = e.init['expr']
+                if x['k'] == 'Call' and x['func']['k'] == 'Path':
+                    g.conv = (x['func']['path']['s'], [es(a) for a in x['args']])
+                    g.conv_ev = e
+                    g.conv_def = e.defs[0] if e.defs else None
+                    seq.append(('conv', e.seq))
+            elif e.kind == 'assign':
+                t = e.target
+                if t['k'] == 'Path':
+                    nm = t['path']['s']
+                    if nm.endswith('_is_set'):
+                        if es(e.value) == 'true':
+                            g.flag_set = nm
+                            seq.append(('flag', e.seq))
+                        else:
+                            g.other_exits.append(('flag-assign', [es(e.value)], e))
+                    else:
+                        g.sets.append((nm, e.value, e))
+                        seq.append(('set', e.seq))
+                else:
+                    g.sets.append((es(t), e.value, e))
+        order = [k for k, s_ in sorted(seq, key=lambda z: z[1])]
+        # expected relative order: enable < conv < reset < (flag,set) < ret
+        rank = {'enable': 0, 'conv': 1, 'reset': 2, 'flag': 3, 'set': 3, 'ret': 4}
+        last = -1
+        for k in order:
+            if rank[k] < last:
+                g.order_ok = False
+            last = max(last, rank[k])
+        g.order = order
+
+
+def _is_after(c, g, e):
+    return True
